@@ -236,6 +236,7 @@ func runC14(c *rt.Ctx) {
 	}
 	item := 0
 	stalledReader(c, &item)
+	comingAndGoing(c, &item)
 	for _, cfg := range cfgs {
 		progs := isoPrograms(cfg.Proto == "binary")
 		// two- and three-connection programs; each connection runs a window of its command list
@@ -418,6 +419,114 @@ func stalledReader(c *rt.Ctx, item *int) {
 			c.Nontrivial(fmt.Sprintf("stalled|%s|%d", cfg, nkeys))
 			if problem != "" {
 				c.Violation(fmt.Sprintf("C14 stalled-reader-blocks-others cfg=%s", cfgClass(cfg)), problem, map[string]interface{}{"cfg": cfg, "keys": nkeys})
+			}
+		}
+	}
+}
+
+// comingAndGoing: two clients arrive, work and leave in every order. A's and B's steps are fixed
+// (connect, set, get, [B: leave], [A: two more commands]); every interleaving of the two step lists is
+// run, one step at a time. A client that connects and stays silent while another connects, or goes on
+// after the other has left, must be answered exactly as when it is alone: whatever a deployment builds
+// per connection (handlers, backend connections, wrapper state) belongs to that connection only.
+func comingAndGoing(c *rt.Ctx, item *int) {
+	cfgs := []Cfg{
+		{Orca: "l1only", Lock: "none", Proto: "text", L1H: "std", App: true},
+		{Orca: "l1l2", Lock: "multi", Proto: "binary", L1H: "std", App: true},
+		{Orca: "l1l2", Lock: "none", Proto: "binary", L1H: "chunked", App: true},
+		{Orca: "l1only", Lock: "none", Proto: "binary", L1H: "batched", App: true},
+		{Orca: "l1only", Lock: "none", Proto: "text", L1H: "inmem", App: true},
+		{Orca: "l1l2", Lock: "single", Proto: "text", L1H: "std"},
+		{Orca: "l1only", Lock: "none", Proto: "binary", L1H: "chunked"},
+	}
+	type step struct {
+		who  int // 0 = A, 1 = B
+		kind string
+		op   wire.Op
+	}
+	aSteps := []step{{0, "connect", wire.Op{}}, {0, "op", wire.Op{Kind: "set", Key: "ka", Val: "va", Flags: 1, Opaque: 0x11}}, {0, "op", wire.Op{Kind: "get", Key: "ka", Opaque: 0x12}},
+		{0, "op", wire.Op{Kind: "append", Key: "ka", Val: "+", Opaque: 0x13}}, {0, "op", wire.Op{Kind: "get", Key: "ka", Opaque: 0x14}}}
+	bSteps := []step{{1, "connect", wire.Op{}}, {1, "op", wire.Op{Kind: "set", Key: "kb", Val: "vb", Flags: 2, Opaque: 0x21}}, {1, "op", wire.Op{Kind: "get", Key: "kb", Opaque: 0x22}}, {1, "leave", wire.Op{}}}
+	var orders [][]step
+	var gen func(i, j int, acc []step)
+	gen = func(i, j int, acc []step) {
+		if i == len(aSteps) && j == len(bSteps) {
+			orders = append(orders, append([]step{}, acc...))
+			return
+		}
+		if i < len(aSteps) {
+			gen(i+1, j, append(acc, aSteps[i]))
+		}
+		if j < len(bSteps) {
+			gen(i, j+1, append(acc, bSteps[j]))
+		}
+	}
+	gen(0, 0, nil)
+	want := [2][]string{{"ok", "values va/1", "ok", "values va+/1"}, {"ok", "values vb/2"}}
+	canon := func(r wire.Reply) string {
+		if r.Class != "values" {
+			return r.Class
+		}
+		out := "values"
+		for _, h := range r.Hits {
+			out += fmt.Sprintf(" %s/%d", h.Val, h.Flags)
+		}
+		return out
+	}
+	for _, cfg := range cfgs {
+		for oi, order := range orders {
+			*item++
+			if !c.Mine(*item) || c.Expired() {
+				continue
+			}
+			var problem string
+			sched.Bubble(c.T, func() {
+				w := NewWorld(cfg)
+				defer w.Release()
+				var ses [2]*Session
+				for _, st := range order {
+					switch st.kind {
+					case "connect":
+						ses[st.who] = w.Connect(0)
+						synctest.Wait()
+					case "op":
+						ses[st.who].Do(st.op)
+						for i := 0; i < 20; i++ { // (the batching pool sends after its virtual batch delay)
+							time.Sleep(time.Millisecond)
+							synctest.Wait()
+						}
+					case "leave":
+						ses[st.who].Hangup()
+						synctest.Wait()
+					}
+				}
+				ses[0].Hangup()
+				for who, s := range ses {
+					reps, stray, malformed := s.Replies()
+					var got []string
+					for _, r := range reps {
+						got = append(got, canon(r))
+					}
+					if stray != 0 || malformed != "" || strings.Join(got, " | ") != strings.Join(want[who], " | ") {
+						problem = fmt.Sprintf("client %c was answered [%s] (stray bytes %d %s); alone it is answered [%s]", 'A'+who, strings.Join(got, " | "), stray, malformed, strings.Join(want[who], " | "))
+						break
+					}
+				}
+			})
+			c.Eval(1)
+			c.Distinct(fmt.Sprintf("arrivals|%s|%d", cfg, oi))
+			c.Nontrivial(fmt.Sprintf("arrivals|%s|%d", cfg, oi))
+			if problem != "" {
+				var desc []string
+				for _, st := range order {
+					d := st.kind
+					if st.kind == "op" {
+						d = st.op.Kind
+					}
+					desc = append(desc, fmt.Sprintf("%c:%s", 'A'+st.who, d))
+				}
+				c.Violation(fmt.Sprintf("C14 arrival-order cfg=%s", cfgClass(cfg)), "steps "+strings.Join(desc, " ")+": "+problem, map[string]interface{}{"cfg": cfg, "order": oi})
+				break
 			}
 		}
 	}
